@@ -44,8 +44,8 @@ Chars(ds) == [i \in 1..Len(ds) |-> DigitChar(ds[i])]
 CanonDigits(v, w, base, signed) ==
     LET b == EffBase(base) IN
     IF signed /\ b = 10 /\ LimbsNegative(v, w)
-    THEN <<MinusChar>> \o Chars(DConvert(LimbsNegate(v, w), LimbRadix, 10))
-    ELSE Chars(DConvert(v, LimbRadix, b))
+    THEN <<MinusChar>> \o Chars(DConvertFast(LimbsNegate(v, w), LimbRadix, 10))
+    ELSE Chars(DConvertFast(v, LimbRadix, b))
 
 \* The contract of the integer formatters, as the set of clauses that FAIL (empty = conforms).
 \*  ret     the return value is the number of characters produced = min(|canon|, len)
